@@ -6,3 +6,4 @@ import AioMySensors.Properties.C03
 import AioMySensors.Properties.C18
 import AioMySensors.Properties.C05
 import AioMySensors.Properties.C17
+import AioMySensors.Properties.C09
